@@ -44,8 +44,13 @@ def main():
         demo_targets = []
         for f in demos:
             first = open(os.path.join(d, f)).readline()
-            m = re.search(r"(x/cctp[\w/]*)", first)
-            target = m.group(1) if m else "x/cctp/keeper"
+            target = "x/cctp/keeper"
+            for cand in sorted(re.findall(r"x/cctp(?:/\w+)*", first), key=len, reverse=True):
+                while cand and not os.path.isdir(os.path.join(wt, cand)):
+                    cand = os.path.dirname(cand)
+                if cand:
+                    target = cand
+                    break
             demo_targets.append((f, target))
             shutil.copy(os.path.join(d, f), os.path.join(wt, target, f))
         pkgs = sorted({"./" + t + "/" for _, t in demo_targets})
